@@ -34,7 +34,8 @@ type Script struct {
 	// Args selects the shape of the arguments: bits 0-1 the context (0 live, 1 cancelled,
 	// 2 past its deadline), bits 2-3 the integers (0 unique sentinels, 1 all zero, 2 all -1,
 	// 3 zero then -1: the "whole blob" range), bit 4 empty strings instead of sentinels,
-	// bits 5-6 further integers when bits 2-3 are 0 (1 all -2, 2 math.MinInt64, 3 math.MaxInt64).
+	// bits 5-6 further integers when bits 2-3 are 0 (1 all -2, 2 math.MinInt64, 3 math.MaxInt64),
+	// bit 7 the recorders' error results wrap ErrUnsupported.
 	Args int `json:"args,omitempty"`
 }
 
@@ -81,7 +82,17 @@ type sentinelWriter struct {
 	ociregistry.BlobWriter
 	id int
 }
-type sentinelErr struct{ id int }
+type sentinelErr struct {
+	id    int
+	unsup bool // the error wraps ErrUnsupported (what a set function reports when it cannot do the thing)
+}
+
+func (e *sentinelErr) Unwrap() error {
+	if e.unsup {
+		return ociregistry.ErrUnsupported
+	}
+	return nil
+}
 
 func (e *sentinelErr) Error() string { return fmt.Sprintf("sentinel error %d", e.id) }
 
@@ -149,13 +160,13 @@ func argsFor(t reflect.Type, salt int, shape int) []reflect.Value {
 }
 
 // resultsFor builds the unique sentinel results the recorder for field fi returns.
-func resultsFor(t reflect.Type, fi int) []reflect.Value {
+func resultsFor(t reflect.Type, fi int, unsup bool) []reflect.Value {
 	outs := make([]reflect.Value, t.NumOut())
 	for i := range outs {
 		ot := t.Out(i)
 		switch {
 		case ot == errType:
-			outs[i] = reflect.ValueOf(error(&sentinelErr{fi})).Convert(errType)
+			outs[i] = reflect.ValueOf(error(&sentinelErr{id: fi, unsup: unsup})).Convert(errType)
 		case ot == brType:
 			outs[i] = reflect.ValueOf(ociregistry.BlobReader(&sentinelReader{id: fi})).Convert(brType)
 		case ot == bwType:
@@ -192,11 +203,11 @@ type world struct {
 	results  [][]reflect.Value
 }
 
-func newWorld() *world {
+func newWorld(unsup bool) *world {
 	w := &world{}
 	for i, f := range fields {
 		i := i
-		res := resultsFor(f.typ, i)
+		res := resultsFor(f.typ, i, unsup)
 		w.results = append(w.results, res)
 		w.recorder = append(w.recorder, reflect.MakeFunc(f.typ, func(args []reflect.Value) []reflect.Value {
 			w.calls = append(w.calls, call{i, args})
@@ -262,10 +273,13 @@ func drainSeq(v reflect.Value) (items []any, errs []error, calls int) {
 	return
 }
 
-var w0 = newWorld()
+var w0, w1 = newWorld(false), newWorld(true)
 
 func run(s Script, v *vt.V) {
 	w := w0
+	if s.Args&128 != 0 {
+		w = w1 // the set functions' errors wrap ErrUnsupported: they are results like any other
+	}
 	w.calls, w.newErrs = w.calls[:0], w.newErrs[:0]
 	if s.Method < 0 || s.Method >= len(fields) {
 		v.Failf("harness", "bad method index")
@@ -449,7 +463,7 @@ var propRandom = &vt.Prop[Script]{
 			Set:      rapid.Uint64Range(0, uint64(1)<<uint(len(fields))-1).Draw(t, "set"),
 			NewError: rapid.Bool().Draw(t, "newError"),
 			Method:   rapid.IntRange(0, len(fields)-1).Draw(t, "method"),
-			Args:     rapid.SampledFrom([]int{0, 0, 1, 2, 4, 8, 12, 16, 13, 30, 32, 64, 96, 33, 80}).Draw(t, "args"),
+			Args:     rapid.SampledFrom([]int{0, 0, 1, 2, 4, 8, 12, 16, 13, 30, 32, 64, 96, 33, 80, 128, 128, 140}).Draw(t, "args"),
 		}
 	},
 	Run: run,
@@ -458,7 +472,7 @@ var propRandom = &vt.Prop[Script]{
 var propStructured = &vt.Prop[Script]{
 	ID:   "C20",
 	Name: "FuncsStructured",
-	Rule: "enumeration of the assignments the property names: each method alone, all-but-one, all, none, every pair (called method's field, one neighbour) in all four set-states, nil table; x with/without NewError x all methods x nine argument shapes (live, cancelled and expired contexts, zero / -1 / -2 / minimal / maximal integers, the (0,-1) range, empty strings)",
+	Rule: "enumeration of the assignments the property names: each method alone, all-but-one, all, none, every pair (called method's field, one neighbour) in all four set-states, nil table; x with/without NewError x all methods x ten argument / result shapes (incl. set functions whose error result wraps ErrUnsupported) (live, cancelled and expired contexts, zero / -1 / -2 / minimal / maximal integers, the (0,-1) range, empty strings)",
 	Run:  run,
 }
 
@@ -581,7 +595,7 @@ func TestPropStructured(t *testing.T) {
 		}
 		for m := 0; m < n; m++ {
 			for _, ne := range []bool{false, true} {
-				for _, shape := range []int{0, 1, 2, 12, 16, 29, 32, 64, 96} {
+				for _, shape := range []int{0, 1, 2, 12, 16, 29, 32, 64, 96, 128} {
 					if !emit(Script{Nil: true, NewError: ne, Method: m, Args: shape}) {
 						return
 					}
